@@ -27,6 +27,7 @@ void mmd6_verif_pool_stats(long * uses, long * slabs, long * used_in_last, long 
 #endif
 
 void mmd_print_source_opml(DString * out, const char * source, size_t start, size_t len);
+token * mmd_tokenize_string(mmd_engine * e, size_t start, size_t len, bool stop_on_empty_line);
 
 /* ------------------------------------------------------------------ framing */
 
@@ -549,13 +550,19 @@ static void op_linetypes(void) {
 	mmd_engine_free(e, true);
 }
 
-/* ---- C02 batch: enumerate line-kind sequences natively.
- * args[0] = spec text:  "K L lo hi nfmt f.. next e.. \n" then K records "must-mask absorb \t line text\n"
- *   sequence index i in [lo,hi) over all sequences of length 1..L (shortest first, base-K digits)
- * reply field: "conversions seqs failures\n" + up to 64 failure lines, then a K-size histogram of
- * line types observed by the classifier.
+/* ---- C02 batch: line-kind sequences, executed natively.
+ * args[0] = spec text:
+ *   "K L lo hi nfmt f.. next e..\n"  then K records "mustmask absorbmask\tline text\n"
+ *   if lo >= 0: sequence index i in [lo,hi) over all sequences of length 1..L (shortest first, base-K digits)
+ *   if lo <  0: explicit sequences follow, one per line: "n k1 k2 .. kn\n" (hi = how many)
+ * In a line text "@@" is replaced by the line's position, "\n" and "\t" by the control character.
+ * A line of kind k at position j carries the sentinel "zq<j>k<k>x".  mustmask bit f: the sentinel must
+ * appear in the output of format index f; absorbmask bit f: lines after this one are not checked in f.
+ * reply field 0: "conversions seqs failures\n" + up to 64 failure lines; field 1: histogram of the
+ * LINE_* types the classifier assigned; field 2: number of distinct line-type bigrams seen.
  */
 #define MAXK 64
+#define MAXSEQ 40
 static void op_linekinds(void) {
 	char * p = rq.a[0].p;
 	int K, L, nfmt, next;
@@ -564,39 +571,49 @@ static void op_linekinds(void) {
 	unsigned long exts[16];
 	char * lines[MAXK];
 	unsigned mustmask[MAXK];
-	int absorb[MAXK];
-	int used = 0, n;
+	unsigned absorbmask[MAXK];
+	int n;
 	sscanf(p, "%d %d %ld %ld %d%n", &K, &L, &lo, &hi, &nfmt, &n); p += n;
 	for (int i = 0; i < nfmt; ++i) { sscanf(p, "%d%n", &fmts[i], &n); p += n; }
 	sscanf(p, "%d%n", &next, &n); p += n;
 	for (int i = 0; i < next; ++i) { sscanf(p, "%lu%n", &exts[i], &n); p += n; }
 	p = strchr(p, '\n') + 1;
 	for (int k = 0; k < K; ++k) {
-		sscanf(p, "%u %d%n", &mustmask[k], &absorb[k], &n); p += n + 1;
+		sscanf(p, "%u %u%n", &mustmask[k], &absorbmask[k], &n); p += n + 1;
 		lines[k] = p;
 		char * nl = strchr(p, '\n');
 		*nl = 0;
 		p = nl + 1;
 	}
-	/* number of sequences of each length */
 	long pw[12]; pw[0] = 1;
-	for (int l = 1; l <= L; ++l) pw[l] = pw[l - 1] * K;
+	for (int l = 1; l <= L && l < 12; ++l) pw[l] = pw[l - 1] * K;
 	long conversions = 0, seqs = 0, failures = 0;
 	long ltype_hist[64] = {0};
+	static unsigned char bigram[64][64];
+	memset(bigram, 0, sizeof(bigram));
 	DString * fails = d_string_new("");
 	DString * doc = d_string_new("");
 	int flogged = 0;
+	long count = lo >= 0 ? hi - lo : hi;
 
-	for (long idx = lo; idx < hi; ++idx) {
-		long r = idx;
-		int len = 1;
-		while (len <= L && r >= pw[len]) { r -= pw[len]; len++; }
-		if (len > L) break;
-		int seq[12];
-		for (int j = len - 1; j >= 0; --j) { seq[j] = r % K; r /= K; }
+	for (long it = 0; it < count; ++it) {
+		int seq[MAXSEQ];
+		int len = 0;
+		long idx = lo >= 0 ? lo + it : it;
+		if (lo >= 0) {
+			long r = idx;
+			len = 1;
+			while (len <= L && r >= pw[len]) { r -= pw[len]; len++; }
+			if (len > L) break;
+			for (int j = len - 1; j >= 0; --j) { seq[j] = r % K; r /= K; }
+		} else {
+			if (sscanf(p, "%d%n", &len, &n) != 1) break;
+			p += n;
+			if (len > MAXSEQ) len = MAXSEQ;
+			for (int j = 0; j < len; ++j) { sscanf(p, "%d%n", &seq[j], &n); p += n; }
+		}
 		d_string_erase(doc, 0, -1);
 		for (int j = 0; j < len; ++j) {
-			/* substitute "@@" in the representative by the position so sentinels are unique */
 			const char * s = lines[seq[j]];
 			for (; *s; ++s) {
 				if (s[0] == '@' && s[1] == '@') { d_string_append_printf(doc, "%d", j); s++; }
@@ -614,26 +631,32 @@ static void op_linekinds(void) {
 				DString * out = NULL;
 				in_request = 1;
 				if (setjmp(exit_jmp) == 0) {
-					out = mmd_engine_convert_to_data(e, fmts[f], NULL);
+					if (fmts[f] == FORMAT_ITMZ) {
+						/* the writer's text, not the zip built around it */
+						char * txt = mmd_engine_convert(e, fmts[f]);
+						out = d_string_new(txt ? txt : "");
+						free(txt);
+					} else {
+						out = mmd_engine_convert_to_data(e, fmts[f], NULL);
+					}
 				}
 				int exited = (in_request == 2);
 				in_request = 1;
 				conversions++;
 				const char * why = NULL;
 				char whybuf[128];
-				if (exited) why = "exit";
+				if (exited) { snprintf(whybuf, sizeof(whybuf), "exit:%d:%ld:%ld", ev_logged ? ev_log[0].kind : 0, ev_logged ? ev_log[0].a : 0, ev_logged ? ev_log[0].b : 0); why = whybuf; }
 				else if (ev_total) { snprintf(whybuf, sizeof(whybuf), "event:%d:%ld:%ld", ev_log[0].kind, ev_log[0].a, ev_log[0].b); why = whybuf; }
 				else if (!out || out->currentStringLength == 0) why = "empty";
 				else {
-					/* sentinel presence, only for lines not preceded by an absorbing kind */
-					int absorbed = 0;
+					unsigned absorbed = 0;
 					for (int j = 0; j < len && !why; ++j) {
-						if (!absorbed && (mustmask[seq[j]] >> f) & 1) {
+						if (!((absorbed >> f) & 1) && ((mustmask[seq[j]] >> f) & 1)) {
 							char sent[32];
 							snprintf(sent, sizeof(sent), "zq%dk%dx", j, seq[j]);
 							if (!strstr(out->str, sent)) { snprintf(whybuf, sizeof(whybuf), "lost:%s", sent); why = whybuf; }
 						}
-						if (absorb[seq[j]]) absorbed = 1;
+						absorbed |= absorbmask[seq[j]];
 					}
 				}
 				if (why) {
@@ -649,15 +672,14 @@ static void op_linekinds(void) {
 				if (!exited) mmd_engine_free(e, true);
 			}
 		}
-		/* which LINE_* types did the classifier assign? (once per sequence, MMD mode) */
 		{
 			mmd_engine * e = mmd_engine_create_with_string(doc->str, exts[0]);
 			token * d = mmd_tokenize_string(e, 0, e->dstr->currentStringLength, false);
-			for (token * l = d ? d->child : NULL; l; l = l->next) if (l->type < 64) ltype_hist[l->type]++;
+			int prev = 0;
+			for (token * l = d ? d->child : NULL; l; l = l->next) if (l->type < 64) { ltype_hist[l->type]++; bigram[prev][l->type] = 1; prev = l->type; }
 			token_tree_free(d);
 			mmd_engine_free(e, true);
 		}
-		(void) used;
 	}
 	DString * head = d_string_new("");
 	d_string_append_printf(head, "%ld %ld %ld\n", conversions, seqs, failures);
@@ -666,6 +688,7 @@ static void op_linekinds(void) {
 	DString * hist = d_string_new("");
 	for (int i = 0; i < 64; ++i) d_string_append_printf(hist, "%ld ", ltype_hist[i]);
 	field(hist->str, hist->currentStringLength);
+	field(bigram, sizeof(bigram));
 	d_string_free(head, true); d_string_free(hist, true);
 	d_string_free(fails, true); d_string_free(doc, true);
 	ev_reset();
